@@ -1,12 +1,17 @@
 package headers
 
 import (
+	"errors"
 	"fmt"
 	"log/slog"
+	"math"
 	"strconv"
 	"strings"
 	"time"
 )
+
+// The largest max-age, in seconds, that fits a time.Duration.
+const maxAgeSeconds = int64(math.MaxInt64 / time.Second)
 
 type cacheControl struct {
 	noCache bool
@@ -26,6 +31,11 @@ func parseCacheControl(ccHeader string) (cacheControl, error) {
 		} else if after, ok := strings.CutPrefix(directive, "max-age="); ok {
 			// max-age directive specifies the maximum amount of time a response is considered fresh in seconds.
 			maxAge, err := strconv.ParseInt(after, 10, 64)
+			if errors.Is(err, strconv.ErrRange) && strings.Trim(after[1:], "0123456789") == "" {
+				// A number too large to represent counts as the largest representable one (RFC 9111 section 1.2.2);
+				// ParseInt has saturated maxAge. (It reports ErrRange before looking at what follows the digits.)
+				err = nil
+			}
 			if err != nil {
 				// Invalid freshness information: the response must not be reused (RFC 9111 section 4.2.1).
 				// Keep going so that the other directives of the header are still seen.
@@ -38,7 +48,8 @@ func parseCacheControl(ccHeader string) (cacheControl, error) {
 				slog.Debug("max-age is less than 1 second, treating as no-cache", "raw", directive)
 				continue
 			}
-			cc.maxAge = time.Duration(maxAge) * time.Second
+			// The product with time.Second must not overflow either
+			cc.maxAge = time.Duration(min(maxAge, maxAgeSeconds)) * time.Second
 		}
 	}
 
